@@ -1,39 +1,83 @@
 """tmplcheck -- run a skeleton family through the interpreted compile pipeline and judge every node."""
 from __future__ import annotations
 
-import time
-from typing import Dict, List, Tuple
+import multiprocessing as mp
+import os
+from typing import Dict, List, Optional, Tuple
 
 from .compose import analyse_skeleton
+from .facts import AnalysisError, Program
 from .models import make_interp
 from .obligations import Result, judge_skeleton
 from .skeletons import Skeleton, quick_family, thorough_family
 
+_G: Dict[str, object] = {}
 
-def family_results(ctx, tags=None) -> Tuple[List[Result], Dict[str, int]]:
+
+def _work(idx_list: List[int]):
+    prog: Program = _G["program"]  # type: ignore[assignment]
+    fam: List[Skeleton] = _G["family"]  # type: ignore[assignment]
+    I = make_interp(prog)
+    out: List[Result] = []
+    stats = {"skeletons": 0, "paths": 0, "nodes": 0}
+    try:
+        for i in idx_list:
+            sk = fam[i]
+            an = analyse_skeleton(I, sk.yaml())
+            stats["skeletons"] += 1
+            stats["paths"] += len(an)
+            stats["nodes"] += sum(len(list(a.root.walk())) for a in an if a.root is not None)
+            out.extend(judge_skeleton(sk, an))
+    except AnalysisError as exc:
+        return ("error", f"{exc} (while analysing skeleton {fam[i].label!r})", stats)
+    except RecursionError as exc:
+        return ("error", f"recursion limit (skeleton {fam[i].label!r})", stats)
+    return ("ok", out, stats)
+
+
+def family(ctx, tags=None) -> List[Skeleton]:
     fam = thorough_family() if ctx.tier == "thorough" else quick_family()
     if tags:
         fam = [s for s in fam if set(s.tags) & set(tags)]
-    I = make_interp(ctx.p)
+    return fam
+
+
+def family_results(ctx, tags=None, jobs: Optional[int] = None) -> Tuple[List[Result], Dict[str, int]]:
+    fam = family(ctx, tags)
+    _G["program"], _G["family"] = ctx.p, fam
+    jobs = jobs or min(16, os.cpu_count() or 4, max(1, len(fam) // 4))
+    chunks: List[List[int]] = [list(range(len(fam)))[k::jobs] for k in range(jobs)]
+    chunks = [c for c in chunks if c]
+    if jobs > 1:
+        with mp.get_context("fork").Pool(len(chunks)) as pool:
+            parts = pool.map(_work, chunks)
+    else:
+        parts = [_work(c) for c in chunks]
     out: List[Result] = []
     stats = {"skeletons": 0, "paths": 0, "nodes": 0}
-    for sk in fam:
-        an = analyse_skeleton(I, sk.yaml())
-        stats["skeletons"] += 1
-        stats["paths"] += len(an)
-        stats["nodes"] += sum(len(list(a.root.walk())) for a in an if a.root is not None)
-        out.extend(judge_skeleton(sk, an))
+    for kind, payload, st in parts:
+        for k in stats:
+            stats[k] += st[k]
+        if kind == "error":
+            raise AnalysisError(str(payload))
+        out.extend(payload)  # type: ignore[arg-type]
     return out, stats
 
 
-def report(ctx, results: List[Result], prefix_map: Dict[str, str]) -> None:
-    """prefix_map: obligation rule prefix -> property rule id, e.g. {'R1.': 'C01.R1'}"""
+def report(ctx, results: List[Result], prop_rule: str, prefixes=(), cats=(), compile_tags=()) -> int:
+    """file the results a property owns: by obligation-rule prefix, by node category, and the
+    'skeleton compiles' results of the skeleton tags it is responsible for"""
+    n = 0
     for r in results:
-        for pre, rid in prefix_map.items():
-            if r.rule.startswith(pre):
-                rule = rid + ":" + r.rule
-                if r.ok:
-                    ctx.ok(rule, r.construct, r.detail)
-                else:
-                    ctx.fail(rule, r.construct, r.atom, r.message + " | " + r.detail[:200])
-                break
+        mine = any(r.rule.startswith(p) for p in prefixes) or (r.cat in cats and not r.rule.startswith("X."))
+        if r.rule.startswith("X."):
+            mine = bool(set(r.tags) & set(compile_tags))
+        if not mine:
+            continue
+        n += 1
+        rule = f"{prop_rule}.{r.rule}"
+        if r.ok:
+            ctx.ok(rule, r.construct, r.detail)
+        else:
+            ctx.fail(rule, r.construct, r.atom, r.message + " | " + r.detail[:220])
+    return n
